@@ -24,17 +24,19 @@ def Al (s : LState F) : Prop := s.depths.size = s.instrs.size
 
 theorem depth_at {t sM sF : LState F} {i : Instruction} {d : Option Nat} (hal : Al t)
     (h1 : AppD (t.push i d) sM) (h2 : AppD sM sF) : sF.depths[t.instrs.size]? = some t.dep := by
-  have k : t.instrs.size < (t.push i d).depths.size := by simp [hal.symm ▸ Nat.lt_succ_self _]; rw [hal]; omega
+  have hal' : t.depths.size = t.instrs.size := hal
+  have k : t.instrs.size < (t.push i d).depths.size := by simp; omega
   have := h1.dsize
   rw [h2.depths _ (by omega), h1.depths _ k]
-  simp [LState.push, ← hal]
+  simp [LState.push, ← hal']
 
 theorem depth_at_const {t sM sF : LState F} {i : Instruction} {v : Val F} (hal : Al t)
     (h1 : AppD (t.pushConst i v) sM) (h2 : AppD sM sF) : sF.depths[t.instrs.size]? = some t.dep := by
-  have k : t.instrs.size < (t.pushConst i v).depths.size := by simp; rw [hal]; omega
+  have hal' : t.depths.size = t.instrs.size := hal
+  have k : t.instrs.size < (t.pushConst i v).depths.size := by simp; omega
   have := h1.dsize
   rw [h2.depths _ (by omega), h1.depths _ k]
-  simp [LState.pushConst, ← hal]
+  simp [LState.pushConst, ← hal']
 
 /-! ### the edges of each kind of instruction -/
 section edges
